@@ -23,38 +23,36 @@ Theorem C17_permission_sound_single :
 Proof. exact single_sound_full. Qed.
 Print Assumptions C17_permission_sound_single.
 
-(* Multi-record parameters: the stored array has the same number of records, and
-   every current record has a counterpart carrying the same requirement key value
-   whose fields outside that requirement's allow-list are intact. *)
-Theorem C17_permission_sound_multi_partial :
+(* Multi-record parameters, full statement: the stored array has as many
+   records as the current one, and there is an injective assignment js of stored
+   positions to the current records (taken in order) such that the stored record
+   at js[n] carries the n-th current record's requirement key value and agrees
+   with it on every field outside that requirement's allow-list. *)
+Theorem C17_permission_sound_multi :
   forall sch vf rs ac inc st',
     schema_ok sch = true -> Forall (fun r => wt_rec sch r = true) rs -> rs <> [] -> has_rules ac ->
     allows_change ac (RVal (enc_slice sch rs)) (Some inc) = Some true ->
     apply_multi sch vf (enc_slice sch rs) inc = AOk st' ->
-    exists rs', st' = enc_slice sch rs' /\ vf rs' = true /\ List.length rs' = List.length rs /\
-      forall r, In r rs ->
-        exists q r', req_of sch (ac_multi ac) r = Some q /\ In r' rs' /\
-          val_is (dedupe (enc_rec sch r)) (sr_key q) (sr_val q) = true /\
-          forall f, In f sch -> str_in (f_name f) (sr_attrs q) = false ->
-            bget (f_name f) r' (zero_k (f_kind f)) = bget (f_name f) r (zero_k (f_kind f)).
-Proof. exact multi_sound_counterpart. Qed.
-Print Assumptions C17_permission_sound_multi_partial.
+    exists rs' js, st' = enc_slice sch rs' /\ vf rs' = true /\ List.length rs' = List.length rs /\
+      NoDup js /\ Forall2 (image_of sch (ac_multi ac) rs') rs js.
+Proof. exact multi_sound_full. Qed.
+Print Assumptions C17_permission_sound_multi.
 
-(* The full multi-record statement also says that no record is replaced: every
-   STORED record is the image of a current record (same requirement key value,
-   protected fields as stored before).  It is false when two current records
-   carry the same requirement key value and differ only in allowed fields: both
-   are checked against the first incoming record with that key value, and the
-   second one is never looked at. *)
-Definition multi_sound_strong : Prop :=
-  forall sch vf rs ac inc st',
-    schema_ok sch = true -> Forall (fun r => wt_rec sch r = true) rs -> rs <> [] -> has_rules ac ->
-    allows_change ac (RVal (enc_slice sch rs)) (Some inc) = Some true ->
-    apply_multi sch vf (enc_slice sch rs) inc = AOk st' ->
-    all_accounted sch (ac_multi ac) rs st' = true.
+(* ... hence no record is replaced or slipped in: every stored record is the
+   image of exactly one current record (whose protected fields it preserves). *)
+Theorem C17_every_stored_record_is_an_image :
+  forall sch reqs rs rs' js,
+    List.length rs' = List.length rs -> NoDup js -> Forall2 (image_of sch reqs rs') rs js ->
+    forall j, (j < List.length rs')%nat ->
+      exists n r, nth_error js n = Some j /\ nth_error rs n = Some r /\ image_of sch reqs rs' r j /\
+        forall m, nth_error js m = Some j -> m = n.
+Proof. exact multi_sound_onto. Qed.
+Print Assumptions C17_every_stored_record_is_an_image.
 
-(* cdp collateral types bnb-a and bnb-b (same denom); the rule is keyed by denom
-   and lets the committee change "type" only *)
+(* cdp collateral types bnb-a and bnb-b (same denom); a rule keyed by denom that
+   lets the committee change "type" only; the second record's debt limit is
+   multiplied by 1000: both current records used to be compared with the first
+   incoming record; now the second is paired with its own image and refused. *)
 Definition w_coll (typ : string) (limit : Z) : jmap :=
   [("denom", JStr (SText "bnb")); ("type", JStr (SText typ));
    ("liquidation_ratio", JStr (SDec 1500000000000000000));
@@ -66,28 +64,16 @@ Definition w_coll (typ : string) (limit : Z) : jmap :=
    ("check_collateralization_index_count", JStr (SInt 10)); ("conversion_factor", JStr (SInt 8))].
 Definition w_coll_ac : allowed_change := mkAC (PKnown 1) [] [mkReq "denom" (SText "bnb") ["type"]].
 Definition w_coll_cur : list jmap := [w_coll "bnb-a" 500000000000; w_coll "bnb-b" 500000000000].
-(* the second record's debt limit is multiplied by 1000 *)
-Definition w_coll_inc : json :=
-  JArr [enc_struct collateral_schema (w_coll "bnb-a" 500000000000);
-        enc_struct collateral_schema (w_coll "bnb-b" 500000000000000)].
 
-Theorem C17_permission_sound_multi_refuted : ~ multi_sound_strong.
-Proof.
-  intros H.
-  assert (P1 : schema_ok collateral_schema = true) by (vm_compute; reflexivity).
-  assert (P2 : Forall (fun r => wt_rec collateral_schema r = true) w_coll_cur).
-  { constructor; [vm_compute; reflexivity|]. constructor; [vm_compute; reflexivity|constructor]. }
-  assert (P3 : w_coll_cur <> []) by (unfold w_coll_cur; intros E0; inversion E0).
-  assert (P4 : has_rules w_coll_ac) by reflexivity.
-  assert (P5 : allows_change w_coll_ac (RVal (enc_slice collateral_schema w_coll_cur)) (Some w_coll_inc) = Some true)
-    by (vm_compute; reflexivity).
-  assert (P6 : apply_multi collateral_schema (valid_multi 1) (enc_slice collateral_schema w_coll_cur) w_coll_inc
-               = AOk w_coll_inc) by (vm_compute; reflexivity).
-  assert (E : all_accounted collateral_schema (ac_multi w_coll_ac) w_coll_cur w_coll_inc = false)
-    by (vm_compute; reflexivity).
-  pose proof (H _ _ _ _ _ _ P1 P2 P3 P4 P5 P6) as Ht. rewrite E in Ht. discriminate.
-Qed.
-Print Assumptions C17_permission_sound_multi_refuted.
+Example C17_shared_key_second_record_refused :
+  allows_change w_coll_ac (RVal (enc_slice collateral_schema w_coll_cur))
+    (Some (JArr [enc_struct collateral_schema (w_coll "bnb-a" 500000000000);
+                 enc_struct collateral_schema (w_coll "bnb-b" 500000000000000)])) = Some false
+  /\ (* while swapping the two types, which the rule allows, is accepted *)
+  allows_change w_coll_ac (RVal (enc_slice collateral_schema w_coll_cur))
+    (Some (JArr [enc_struct collateral_schema (w_coll "bnb-b" 500000000000);
+                 enc_struct collateral_schema (w_coll "bnb-a" 500000000000)])) = Some true.
+Proof. split; vm_compute; reflexivity. Qed.
 
 (** * 2. life cycle *)
 
